@@ -39,13 +39,14 @@ def obligations():
                 functions=['opus_decode_native', 'opus_packet_parse_impl'], budget=700, tier='quick', replay=False, mem_gb=16,
                 stubs=['opus_decode_frame: synth stub (asserts its output region lies inside the caller buffer, returns the durations the real function may return, logs calls)'],
                 bounds='Fs=8000, standard framing; any decoder state satisfying validate_opus_decoder; any 4-byte packet with <= 2 frames, any len -1..4, NULL or not; any frame_size 1..40 ms; decode_fec -1..2'))
-    for fsi, tier, plc in ((0, 'quick', 1), (0, 'thorough', 0), (4, 'thorough', 0), (2, 'thorough', 0)):
+    # the concealment-only variant did not leave symbolic execution within 600 s either; both variants are thorough-tier only
+    for fsi, tier, plc in ((0, 'thorough', 1), (0, 'thorough', 0), (4, 'thorough', 0), (2, 'thorough', 0)):
         F20 = FSN[fsi] // 50
-        L.append(Ob('H3.frame_glue%s.fs%d' % ('.concealment_only' if plc else '', FSN[fsi]), 'C01_frame.c', ['celt/entdec.c', 'celt/entcode.c'], ['-DFSI=%d' % fsi, '-DPL=6'] + (['-DPLCONLY'] if plc else []), unwind=1,
+        L.append(Ob('H3.frame_glue%s.fs%d' % ('.concealment_only' if plc else '', FSN[fsi]), 'C01_frame.c', ['celt/entdec.c', 'celt/entcode.c'], ['-DFSI=%d' % fsi, '-DPL=6'] + (['-DPLCONLY', '-DCHSEL=1'] if plc else []), unwind=1,
                     replace=['smooth_fade_REAL:stub_fade'], memwords=F20 // 2 + 2,
-                    unwindset=['harness:7', 'opus_decode_frame:%d' % (F20 * 2 + 2), 'opus_decode_frame@decoded_samples < frame_size:5', 'opus_decode_frame@audiosize > 0:8',
+                    unwindset=['harness:7', 'opus_decode_frame:%d' % ((F20 // 2 + 6) if plc else (F20 * 2 + 2)), 'opus_decode_frame@decoded_samples < frame_size:5', 'opus_decode_frame@audiosize > 0:8',
                                'opus_decode_frame@c<st->channels:3', 'opus_decode_frame@i<F2_5:%d' % (F20 // 8 + 1), 'rec:opus_decode_frame:3', 'ec_dec_init:5', 'ec_dec_normalize:5', 'ec_dec_uint:3', 'ec_dec_bits:5'],
-                    functions=['opus_decode_frame', 'ec_dec_init'], budget=(600 if plc else 1500), tier=tier, replay=False, mem_gb=16,
+                    functions=['opus_decode_frame', 'ec_dec_init'], budget=3000, tier=tier, replay=False, mem_gb=16,
                     stubs=['silk_Decode, celt_decode_with_ec(_dred), smooth_fade: synth stubs touching exactly the region their contract lets them write', 'celt_decoder_ctl: argument-checking stub', 'silk_ResetDecoder: no-op'],
-                    bounds=('concealment requests only (NULL packet); ' if plc else '') + 'Fs=%d; any (mode, bandwidth, frame duration) a TOC can announce, any previous mode / redundancy, 1-2 channels; any packet of 0..6 bytes or NULL; any frame_size 0..120 ms + 3 samples (concealment-only variant: 0..20 ms + 3 samples) in an exact-size buffer; decode_fec 0/1; decode_gain 0' % FSN[fsi]))
+                    bounds=('concealment requests only (NULL packet); ' if plc else '') + 'Fs=%d; any (mode, bandwidth, frame duration) a TOC can announce, any previous mode / redundancy, 1-2 channels; any packet of 0..6 bytes or NULL; any frame_size 0..120 ms + 3 samples (concealment-only variant: 0..10 ms + 3 samples) in an exact-size buffer; decode_fec 0/1; decode_gain 0' % FSN[fsi]))
     return L
